@@ -18,9 +18,9 @@ LEVEL = "exploration"
 ENCODED = ["twisted.internet.defer:Deferred._runCallbacks", "twisted.internet.defer:Deferred._startRunCallbacks",
            "twisted.internet.defer:_inlineCallbacks", "twisted.internet.defer:_gotResultInlineCallbacks",
            "twisted.internet.defer:_cancellableInlineCallbacks", "twisted.internet.defer:Deferred.__iter__"]
-BOUNDS = {"quick": {"n": 12}, "thorough": {"n": 40}}
+BOUNDS = {"quick": {"n": 40}, "thorough": {"n": 150}}
 B = {}
-BOUNDS_TEXT = ("chain length / number of awaits 2 <= n <= N (N = 12 quick, 40 thorough); both build orders; "
+BOUNDS_TEXT = ("chain length / number of awaits 2 <= n <= N (N = 40 quick, 150 thorough); both build orders; "
                "all-success, all-failure and last-fails result modes; callback chain, inlineCallbacks loop, "
                "coroutine loop (first awaited Deferred pre-fired or fired later)")
 OUTSIDE = ["n above the bound (the property text goes to 10^5) and the actual RecursionError: only "
